@@ -180,3 +180,8 @@ pub fn ddmin<T: Clone>(items: Vec<T>, budget: &mut usize, fails: &mut dyn FnMut(
     }
     cur
 }
+impl From<String> for Blob {
+    fn from(v: String) -> Self {
+        Blob(v.into_bytes())
+    }
+}
